@@ -92,4 +92,90 @@ def coerceResults : List (String × List String) := [
 
 def coerceAllowed (target : String) : Option (List String) := coerceResults.lookup target
 
+/-! ### compound type specifiers (the List branch of coerce.go:63-165 and of subtypep's designatedType) -/
+
+inductive Bound where
+  | star
+  | val (v : Rat)
+  deriving DecidableEq, Repr
+
+/-- compound specifiers `coerce` accepts: `(integer lo hi)` … for the numeric heads, `(vector elem n)`,
+    `(bit-vector n)`, `(signed-byte n)`, `(unsigned-byte n)`; `atom` is a plain type symbol -/
+inductive Spec where
+  | atom (name : String)
+  | range (head : String) (lo hi : Bound)
+  | vector (elem : Option String) (n : Option Nat)
+  | sized (head : String) (n : Option Nat)
+  deriving DecidableEq, Repr
+
+def Spec.head : Spec → String
+  | .atom n => n
+  | .range h _ _ => h
+  | .vector _ _ => "vector"
+  | .sized h _ => h
+
+/-- what the property can observe of an object: its `type-of`, its exact value when it is a real
+    number, its length when it is a sequence -/
+structure Obs where
+  ty : String
+  val : Option Rat
+  len : Option Nat
+  deriving DecidableEq, Repr
+
+def loOK : Bound → Rat → Bool
+  | .star, _ => true
+  | .val b, v => decide (b ≤ v)
+
+def hiOK : Bound → Rat → Bool
+  | .star, _ => true
+  | .val b, v => decide (v ≤ b)
+
+def lenOK : Option Nat → Option Nat → Bool
+  | none, _ => true
+  | some n, some l => n == l
+  | some _, none => false
+
+/-- the size restriction of `(signed-byte n)` / `(unsigned-byte n)` as coerce.go applies it:
+    magnitude below 2^n (and not negative for unsigned-byte) -/
+def bitsOK (head : String) : Option Nat → Option Rat → Bool
+  | none, _ => true
+  | some _, none => false
+  | some n, some v =>
+    if head = "unsigned-byte" then decide (0 ≤ v) && decide (v < (2 ^ n : Nat))
+    else decide (-((2 ^ n : Nat) : Rat) < v) && decide (v < (2 ^ n : Nat))
+
+/-- the object belongs to the type the specifier denotes -/
+def member (tbl : HierTable) (o : Obs) : Spec → Bool
+  | .atom n => typep tbl o.ty n
+  | .range h lo hi =>
+    typep tbl o.ty h && (match o.val with
+      | some v => loOK lo v && hiOK hi v
+      | none => false)
+  | .vector _ n => typep tbl o.ty "vector" && lenOK n o.len
+  | .sized h n =>
+    typep tbl o.ty h && (if h = "bit-vector" then lenOK n o.len else bitsOK h n o.val)
+
+/-- `coerce` to a compound specifier: convert to the head type (the result `r` of the atomic
+    conversion), then the restriction of the specifier is checked; nothing else changes. -/
+def coerceSpec (tbl : HierTable) (s : Spec) (r : Obs) : Option Obs :=
+  if member tbl r s then some r else none
+
+/-- `subtypep` on two-element specifiers `(base elem)`, e.g. `(vector fixnum)` (subtypep.go) -/
+structure TSpec where
+  base : String
+  elem : Option String
+  deriving DecidableEq, Repr
+
+def specSub (cls : ClassTable) (s t : TSpec) : Bool :=
+  subtypep cls s.base t.base &&
+  match t.elem with
+  | none => true
+  | some eb =>
+    match s.elem with
+    | none => false
+    | some ea => subtypep cls ea eb
+
+def specRegistered (cls : ClassTable) (s : TSpec) : Bool :=
+  registered cls s.base && (match s.elem with | none => true | some e => registered cls e)
+
 end SlipVerif.Types
